@@ -90,7 +90,21 @@ def configs(tier, seed):
     return cfgs
 
 
-def mc_module(T, M, SL, HU, bounds, modes, copy_on_parse, emit):
+ALL_DEVS = ["inject_raw", "slice_string", "slice_in_mod", "slice_leftover", "import_empty", "import_declared",
+            "import_reinject"]
+
+
+def active_devs():
+    """Deviations of the code the MACHINE still has: those named by an OPEN finding.  A finding marked fixed
+    switches its deviation off (the machine then follows the repaired algorithm) and suppresses nothing."""
+    fs = [f for f in C.load_findings() if f["property"] == PID]
+    open_ = {f.get("deviation") for f in fs if f["status"] == "open"}
+    named = {f.get("deviation") for f in fs}
+    return [d for d in ALL_DEVS if d in open_ or d not in named]
+
+
+def mc_module(T, M, SL, HU, bounds, modes, copy_on_parse, emit, devs=None):
+    devs = active_devs() if devs is None else devs
     imphosts = [{"host": [], "form": "block"}, {"host": ["h"], "form": "inline"}, {"host": ["h"], "form": "block"},
                 {"host": ["h", "q"], "form": "block"}]
     if bounds.get("fewhosts"):
@@ -105,6 +119,7 @@ MCHostUnits == {C.tla_str(set(HU))}
 MCModes == {C.tla_str(set(modes))}
 MCInjHosts == <<<<"b">>, <<"c">>, <<"d">>>>
 MCImpHosts == {seq(imphosts)}
+MCDevs == {C.tla_str(set(devs))}
 MCRefKinds == {C.tla_str(set(bounds.get('kinds', ['inj', 'imp'])))}
 ====
 """, f"""CONSTANTS
@@ -115,6 +130,7 @@ MCRefKinds == {C.tla_str(set(bounds.get('kinds', ['inj', 'imp'])))}
   Modes <- MCModes
   InjHosts <- MCInjHosts
   ImpHosts <- MCImpHosts
+  Devs <- MCDevs
   RefKinds <- MCRefKinds
   MaxDef = {bounds['def']}
   MaxMod = {bounds['mod']}
@@ -130,8 +146,8 @@ CHECK_DEADLOCK FALSE
 """
 
 
-def run_tlc(wd, cf, copy_on_parse=True, emit=True, coverage=False):
-    mod, cfg = mc_module(cf["T"], cf["M"], cf["SL"], cf["HU"], cf["bounds"], cf["modes"], copy_on_parse, emit)
+def run_tlc(wd, cf, copy_on_parse=True, emit=True, coverage=False, devs=None):
+    mod, cfg = mc_module(cf["T"], cf["M"], cf["SL"], cf["HU"], cf["bounds"], cf["modes"], copy_on_parse, emit, devs)
     with open(os.path.join(wd, "DipRefsMC.tla"), "w") as f:
         f.write(mod)
     return C.run_tlc(wd, "DipRefsMC", cfg, coverage=coverage, want_records=emit)
